@@ -50,7 +50,8 @@ Definition vsort (v : vec) : vec := fold_right vinsert [] v.
 Definition vnth (v : vec) (i : nat) : T := nth i v (n_nan Ops).
 
 (* numpy.percentile(v, p) with p in [0,100], default method "linear":
-   h = p/100*(n-1); result = s[i] + (h-i)*(s[i+1]-s[i]) for i = floor h.    *)
+   h = p/100*(n-1); result = s[i] + (h-i)*(s[i+1]-s[i]) for i = floor h, evaluated as numpy's _lerp does
+   (a + (b-a)*t for t < 1/2, b - (b-a)*(1-t) for t >= 1/2): the same real number, the same rounding.    *)
 Fixpoint perc_scan (s : vec) (h : T) (i : nat) (fuel : nat) : T :=
   match fuel with
   | O => n_nan Ops
@@ -58,7 +59,10 @@ Fixpoint perc_scan (s : vec) (h : T) (i : nat) (fuel : nat) : T :=
       let fi := n_ofnat Ops i in
       if n_eqb Ops h fi then vnth s i
       else if n_ltb Ops h (n_ofnat Ops (S i)) then
-        n_add Ops (vnth s i) (n_mul Ops (n_sub Ops h fi) (n_sub Ops (vnth s (S i)) (vnth s i)))
+        (let t := n_sub Ops h fi in
+         let a := vnth s i in let b := vnth s (S i) in let d := n_sub Ops b a in
+         if n_leb Ops (n_lit Ops 1 2) t then n_sub Ops b (n_mul Ops d (n_sub Ops (n_lit Ops 1 1) t))
+         else n_add Ops a (n_mul Ops d t))
       else perc_scan s h (S i) f
   end.
 Definition vpercentile (v : vec) (p : T) : T :=
